@@ -35,6 +35,8 @@ type LOCall struct {
 type C05Case struct {
 	World gen.World `json:"world"`
 	Calls []LOCall  `json:"calls"`
+	// Parallel > 1: every call is issued that many times at once (each response is judged)
+	Parallel int `json:"parallel,omitempty"`
 }
 
 var loEngines = []string{"classic", "weighted", "pipeline"}
@@ -243,7 +245,34 @@ func checkC05(env *fw.Env, c C05Case) *fw.Failure {
 		if skipKnownPipelineHang(env, call.Engine, c.World.Model) {
 			continue
 		}
-		if !semkit.Watchdog(semkit.HangLimit(), func() { objs, err, dt = runLO(s, storeID, modelID, call) }) {
+		if c.Parallel > 1 {
+			type res struct {
+				objs []string
+				err  error
+			}
+			out := make([]res, c.Parallel)
+			done := semkit.Watchdog(semkit.HangLimit(), func() {
+				var wg sync.WaitGroup
+				for i := range out {
+					wg.Add(1)
+					go func(i int) {
+						defer wg.Done()
+						out[i].objs, out[i].err, _ = runLO(s, storeID, modelID, call)
+					}(i)
+				}
+				wg.Wait()
+			})
+			if !done {
+				return fw.Failf("", "%d concurrent ListObjects(%+v) engine=%s did not return within the hang limit\n%s", c.Parallel, call.Req, call.Engine, semkit.Describe(c.World))
+			}
+			for _, r := range out[1:] {
+				if sig, why := judgeLO(c.World, call, truth, r.objs, r.err); why != "" && !semkit.IsTooComplex(r.err) {
+					return fw.Failf(sig, "ListObjects(%+v) engine=%s limit=%d (one of %d concurrent calls): %s\n%s", call.Req, call.Engine, call.Limit, c.Parallel, why, semkit.Describe(c.World))
+				}
+			}
+			objs, err = out[0].objs, out[0].err
+			classes = append(classes, "concurrent-calls")
+		} else if !semkit.Watchdog(semkit.HangLimit(), func() { objs, err, dt = runLO(s, storeID, modelID, call) }) {
 			sig := ""
 			if call.Engine == "pipeline" && hasDuplicateDirectOperands(c.World.Model) {
 				sig = SigPipelineHangDuplicateDirect
@@ -324,9 +353,10 @@ func genC05Limit(t *rapid.T) C05Case {
 	}
 	c := C05Case{World: gen.World{Model: mo, Tuples: ts}}
 	call := LOCall{Req: sut.LORequest{Type: "doc", Relation: "r2", User: "user:0"}, Engine: loEngines[rapid.IntRange(0, 2).Draw(t, "engine")], Limit: rapid.IntRange(1, 3).Draw(t, "limit")}
-	for i, k := 0, rapid.IntRange(3, 8).Draw(t, "repeats"); i < k; i++ {
+	for i, k := 0, rapid.IntRange(2, 4).Draw(t, "repeats"); i < k; i++ {
 		c.Calls = append(c.Calls, call)
 	}
+	c.Parallel = []int{1, 4, 8}[rapid.IntRange(0, 2).Draw(t, "parallel")]
 	return c
 }
 
